@@ -147,6 +147,9 @@ func runC01(c *an.Ctx) {
 				nw++
 				_, isStore := a.Instr.(*ssa.Store)
 				if isStore {
+					if isRotationFunc(p, fn) {
+						continue // the weekly rotation moves slots down unchanged (rules ROTATE of C03)
+					}
 					c.Check(fn == integ, "WHO-MAY", fn, a.Instr.Pos(), an.KeyOf(fn, "slot-store"), "a report slot is stored into only by the report integrator", "writer "+an.FuncName(fn))
 				} else {
 					// bulk copies: the rotation (checked by C03)
@@ -457,6 +460,33 @@ func windowGrid() []map[string]*big.Int {
 		}
 	}
 	return grid
+}
+
+// isRotationFunc: the function advances the window offset by 2016 (offset += 2016).
+func isRotationFunc(p *an.Program, fn *ssa.Function) bool {
+	fi := p.Info(fn)
+	for _, b := range fn.Blocks {
+		for _, in := range b.Instrs {
+			st, ok := in.(*ssa.Store)
+			if !ok {
+				continue
+			}
+			if f, ok := fi.RefClass(st.Addr).FieldOf("GCAServer"); !ok || f != "equipmentReportsOffset" {
+				continue
+			}
+			vt := fi.Term(st.Val)
+			if vt.K == an.KBin && vt.S == "+" {
+				for k := 0; k < 2; k++ {
+					if isConstTerm(vt.A[k], "2016") {
+						if fl, _, ok := mapFieldOfTerm(vt.A[1-k]); ok && fl == "equipmentReportsOffset" {
+							return true
+						}
+					}
+				}
+			}
+		}
+	}
+	return false
 }
 
 // parserLayout: the function that builds the report from raw bytes and looks the device up
